@@ -666,6 +666,16 @@ class ExprMixin(object):
                 self.do_raise(a, "TypeError")
             return self.subscript(core.oval(c), k, b, node) if b is not None else []
         if c.ty is STR:
+            if CTX.strmode == "z3":
+                i = coerce(k, INT).t
+                if not self.in_spec:
+                    ok, bad = self.fork(st, z3.And(i >= 0, i < z3.Length(c.t)), line, "stridx")
+                    if bad is not None:
+                        self.do_raise(bad, "IndexError")
+                    if ok is None:
+                        return []
+                    st = ok
+                return [(st, V(STR, z3.SubString(c.t, i, 1)))]
             self.notes.append("string indexing is uninterpreted")
             return [(st, core.ufun("str_at", [c, coerce(k, INT)], STR))]
         if c.ty is PY:
@@ -702,6 +712,15 @@ class ExprMixin(object):
                     st3.assume(core.llen(r) == ln,
                                core.forall_int(0, core.llen(r), lambda j: z3.Select(core.larr(r), j) == z3.Select(core.larr(c), lo_t + j)))
                     res.append((st3, r))
+                elif c.ty is STR and CTX.strmode == "z3":
+                    n = z3.Length(c.t)
+                    def nrm(v):
+                        i = coerce(v, INT).t
+                        i = z3.If(i < 0, n + i, i)
+                        return _clamp(i, n)
+                    lo_t = z3.IntVal(0) if lo is None else nrm(lo)
+                    hi_t = n if hi is None else nrm(hi)
+                    res.append((st2, V(STR, z3.SubString(c.t, lo_t, z3.If(hi_t > lo_t, hi_t - lo_t, z3.IntVal(0))))))
                 elif c.ty is STR:
                     self.notes.append("string slicing is uninterpreted")
                     args = [c, lo if lo is not None else mk_int(0), hi if hi is not None else mk_int(-999999)]
